@@ -123,9 +123,12 @@ class Run:
         for b in self.broken:
             print("ANALYSIS-BROKEN property=%s %s" % (pid, b))
         self.write_evidence(new, reported_known)
+        # a definite violation is reported as such even if another rule instance lost its anchor
+        if new:
+            return 1
         if self.broken:
             return 2
-        return 1 if new else 0
+        return 0
 
     def write_evidence(self, new, reported_known):
         mod = self.mod
